@@ -38,6 +38,34 @@ PANIC_PREFIXES = ("core::panicking::", "std::rt::begin_panic", "core::option::un
                   "core::option::expect_failed")
 
 
+_FCS = {}
+
+
+def fcs_helper(P, callee):
+    """is `callee` a local helper whose result is the wrapping byte sum (Iterator::fold with u8::wrapping_add) of its slice parameter?"""
+    if callee in _FCS:
+        return _FCS[callee]
+    res = False
+    f = P.get(CR, callee) if P is not None else None
+    if f is not None and f.kind in ("fn", "assoc") and f.argc == 1 and len(f.blocks) <= 8 and not f.back_edges():
+        from analysis.query import return_terms
+        tb = TermBuilder(f, P)
+        rts = return_terms(f, tb)
+        if len(rts) == 1:
+            sv = show(rts[0][2])
+            res = "fold(" in sv and "wrapping_add" in sv and any(x[0] == "arg" for x in subterms(rts[0][2]))
+    _FCS[callee] = res
+    return res
+
+
+def is_fcs_term(t, P=None):
+    """the folded frame check sequence: the fold itself or a call of a checksum helper"""
+    t = strip_refs(t)
+    if t[0] != "call":
+        return False
+    return ("fold" in t[1] and "wrapping_add" in show(t)) or fcs_helper(P, t[1])
+
+
 def is_buf_elem(t, idx_pred=None):
     """element read of the input buffer: index(<buffer>, i) / cidx"""
     t = strip_casts(strip_refs(t))
@@ -186,7 +214,7 @@ def check_accept_and_verdicts(ctx, P, tele, data, token):
                     if not ok:
                         miss.setdefault(what, []).append(fs)
             need = [("function code parsed (from_byte is Ok)", lambda k: k[0] == "discr" and M.t_call("from_byte")(strip_refs(k[1])), {"Ok"}),
-                    ("checksum byte buffer[length] == folded checksum", M.key_cmp("eq", lambda t: strip_refs(t)[0] == "call" and "fold" in strip_refs(t)[1] and "wrapping_add" in show(t),
+                    ("checksum byte buffer[length] == folded checksum", M.key_cmp("eq", lambda t: is_fcs_term(t, P),
                                                                                    lambda t: is_buf_elem(t, idx_len_plus(0))), {True}),
                     ("end delimiter buffer[length+1] == 0x16", M.key_cmp("eq", M.t_const(FR["ED"]), lambda t: is_buf_elem(t, idx_len_plus(1))), {True})]
             for what, kp, allowed in need:
@@ -255,7 +283,7 @@ def discharge_panic_call(ctx, P, f, b, c, tele):
 
 def check_checksum_range(ctx, P, data, tb):
     n = 0
-    for b, c in call_sites(data, lambda c: "fold" in (c.get("callee") or "")):
+    for b, c in call_sites(data, lambda c: "fold" in (c.get("callee") or "") or fcs_helper(P, c.get("callee") or "")):
         t = tb.joperand(c["args"][0])
         s = show(t)
         n += 1
@@ -299,7 +327,11 @@ def len_bound(fs, is_len, f=None):
     return best
 
 
+_P = [None]
+
+
 def closed_world(ctx, P, tele, data, token):
+    _P[0] = P
     nnone = nerr = 0
     # ---- Telegram::deserialize
     for f, none_rule, err_rule in (
@@ -380,7 +412,7 @@ def data_err(fs):
     if (has(lt1, {True}) or has(eq0, {True})) and any(
             k[0] == "cmp" and k[1] == "eq" and "BitAnd" in show(k) and vs == ("in", frozenset([False])) for k, vs in fs.items()):
         return "extension bit set but LE leaves no room for the SAP"
-    if has(M.key_cmp("eq", lambda t: strip_refs(t)[0] == "call" and "fold" in strip_refs(t)[1], lambda t: is_buf_elem(t, idx_len_plus(0))), {False}):
+    if has(M.key_cmp("eq", lambda t: is_fcs_term(t, _P[0]), lambda t: is_buf_elem(t, idx_len_plus(0))), {False}):
         return "checksum mismatch"
     if has(M.key_cmp("eq", M.t_const(FR["ED"]), lambda t: is_buf_elem(t, idx_len_plus(1))), {False}):
         return "end delimiter missing"
